@@ -1,6 +1,6 @@
 """Shared helpers of the C17/C18 checks: private nano_vmd instances (hook h3), raw protocol sessions, .nvm surgery,
 standalone observations.  Every daemon lives under its own tempfile.mkdtemp() directory and is killed by pid."""
-import os, sys, socket, struct, subprocess, tempfile, shutil, time, signal, zlib, atexit, ctypes, json, re, hashlib
+import os, sys, socket, struct, subprocess, tempfile, shutil, time, signal, zlib, atexit, ctypes, json, re, hashlib, threading
 import vlib
 
 VERSION = 1
@@ -142,6 +142,20 @@ class Daemon:
             except Exception:
                 pass
         self.last_stderr = self.stderr()
+        # a `nano_vm --daemon` client that finds no daemon launches one itself (vmd_connect -> launch_daemon, detached with setsid);
+        # it inherits our private paths and writes its pid into our pid file: never leave it behind
+        try:
+            stray = int(open(self.pidf).read().split()[0])
+            if stray > 1 and (p is None or stray != p.pid) and 'nano_vmd' in os.readlink('/proc/%d/exe' % stray):
+                os.kill(stray, signal.SIGTERM)
+                for _ in range(30):
+                    time.sleep(0.05)
+                    if not os.path.exists('/proc/%d' % stray):
+                        break
+                else:
+                    os.kill(stray, signal.SIGKILL)
+        except (OSError, ValueError, IndexError):
+            pass
         shutil.rmtree(self.dir, ignore_errors=True)
         return rc
 
@@ -546,3 +560,85 @@ def expected_client_obs(canon):
 def nvref_cmd(ref):
     """The extracted model handles streams of several 100 KB as Coq lists (non tail-recursive app/length): give it stack."""
     return ['sh', '-c', 'ulimit -s unlimited 2>/dev/null || ulimit -s 4000000 2>/dev/null; exec "$0"', ref]
+
+
+# ------------------------------------------------------------------------------------------ time budget
+class Budget:
+    """Bounded-time policy shared by the C17/C18 checks.
+    * every client gets `t_first` seconds until the first client of the run has hung, `t_after` seconds afterwards;
+    * a phase that has seen `k` anomalies (hung clients / communication errors the model does not allow) is abandoned:
+      the callers record the failures and skip everything else that would use the same daemon instance;
+    * `left()` = seconds of the global correspondence budget that remain (callers skip optional repetitions when it is gone)."""
+    def __init__(self, t_first=60.0, t_after=20.0, k=3, wall=240.0):
+        self.t_first, self.t_after, self.k, self.wall = t_first, t_after, k, wall
+        self.t0 = time.time()
+        self.hangs = 0            # in the whole run
+        self.phase = 0            # anomalies in the current phase
+        self.log = []
+        self.lock = threading.Lock()
+
+    def timeout(self):
+        return self.t_after if self.hangs else self.t_first
+
+    def new_phase(self):
+        self.phase = 0
+
+    def anomaly(self, what, hung=False):
+        with self.lock:
+            self.phase += 1
+            if hung:
+                self.hangs += 1
+            if len(self.log) < 40:
+                self.log.append(what)
+
+    def exhausted(self):
+        return self.phase >= self.k
+
+    def left(self):
+        return self.wall - (time.time() - self.t0)
+
+    def summary(self):
+        return dict(hung_clients=self.hangs, anomalies_logged=self.log[:12], seconds=round(time.time() - self.t0, 1))
+
+
+def client_anomaly(obs):
+    """Classify what a `nano_vm --daemon` client showed: 'hung' (killed by the timeout), 'comm' (communication / connect error), None."""
+    rc, out, err = obs
+    if rc == -9 and err.endswith(b'[timeout]'):
+        return 'hung'
+    if b'Communication error with daemon' in err or b'Cannot connect to nano_vmd' in err or b'Timeout waiting for daemon' in err:
+        return 'comm'
+    return None
+
+
+def raw_anomaly(rr):
+    """The same for a raw exec session result of raw_session()."""
+    if rr.get('timeout'):
+        return 'hung'
+    if rr.get('error') or rr.get('reset') or rr.get('send_error'):
+        return 'comm'
+    fs, rest = parse_frames(rr.get('recv', b''))
+    if not any(f[0] == T_EXIT for f in fs) and not any(f[0] == T_ERROR for f in fs):
+        return 'comm'          # connection closed without EXIT_CODE/ERROR: the client would print "Communication error"
+    return None
+
+
+def gen_slow_program(tag, steps, work):
+    """Runs for `steps` units of fib(work), one distinctive line per unit (used under --idle-timeout)."""
+    return '''
+fn fib(n: int) -> int {
+    if (< n 2) { return n } else { return (+ (fib (- n 1)) (fib (- n 2))) }
+}
+shadow fib { assert (== (fib 5) 5) }
+
+fn main() -> int {
+    let mut i: int = 0
+    while (< i %(steps)d) {
+        (println (+ "%(tag)s-step-" (+ (int_to_string i) (+ ":" (int_to_string (fib %(work)d))))))
+        set i (+ i 1)
+    }
+    (println "%(tag)s-slow-done")
+    return 0
+}
+shadow main { assert true }
+''' % dict(tag=tag, steps=steps, work=work)
